@@ -42,6 +42,13 @@ def main():
                 d = ud.normalize('NFKD', c)
                 out.write('%x %s %d %s\n' % (cp, cat, ud.combining(c), '-' if d == c else d.encode('utf-8').hex()))
             out.write('.\n')
+        elif cmd == 'K':
+            # K <hex password> <hex salt>: PBKDF2-HMAC-SHA512, 2048 rounds, 64 bytes (hashlib),
+            # an oracle for the harness's own PBKDF2 loop (self-test only)
+            import hashlib
+            pw = b'' if parts[1] == '-' else bytes.fromhex(parts[1])
+            salt = b'' if parts[2] == '-' else bytes.fromhex(parts[2])
+            out.write(hashlib.pbkdf2_hmac('sha512', pw, salt, 2048, 64).hex() + '\n')
         elif cmd == 'V':
             out.write(ud.unidata_version + '\n')
         elif cmd == 'FLUSH':
